@@ -88,14 +88,22 @@ def round_trip(system, save_calc, edit=None):
             return [("__inconclusive__", "D4 at load")], None
         return [(f"load-raises:{type(e).__name__}-{str(e)[:20].strip(chr(39))}", f"{type(e).__name__}: {e}")], None
     sys2 = list(class_objs["System"].values())[0]
-    j2 = system_to_json(sys2, save_calculated_attributes=save_calc)
+    try:
+        with watchdog(120):
+            j2 = system_to_json(sys2, save_calculated_attributes=save_calc)
+    except Exception as e:  # noqa
+        return [(f"re-export-raises:{type(e).__name__}", f"exporting the loaded system raises {type(e).__name__}: {str(e)[:160]}")], None
     if not save_calc:
         if j1 != j2:
             diff = first_json_diff(j1, j2)
             bad.append(("re-export-differs", diff))
     else:
-        d = first_json_diff(strip_calc(j1, system), strip_calc(j2, sys2))
+        # edges towards values of objects that are not part of the export (a journey no usage pattern uses, computed as a
+        # side effect of an edit of a step it shares with the system) cannot be compared: the loaded model has no such object
+        j1x, j2x = drop_links_outside(j1, system), drop_links_outside(j2, sys2)
+        d = first_json_diff(strip_calc(j1x, system), strip_calc(j2x, sys2))
         if d:
+            j1, j2 = j1x, j2x
             # D25: a calculated attribute that is empty ("no value") keeps dependency links in an edited model that a
             # freshly computed model never creates (e.g. a network of a usage pattern left without jobs)
             d2 = first_json_diff(drop_empty_links(strip_calc(j1, system), system), drop_empty_links(strip_calc(j2, sys2), sys2))
@@ -151,6 +159,23 @@ def drop_empty_links(j, system):
     return walk(j)
 
 
+def drop_links_outside(j, system):
+    """j without the ids, in `direct_children_with_id` lists, of values held by objects that are not exported"""
+    inside_ids = set(all_objects(system))
+
+    def owner(i):
+        return str(i).split("-in-", 1)[1] if "-in-" in str(i) else None
+
+    def walk(x):
+        if isinstance(x, dict):
+            return {k: ([i for i in v if owner(i) is None or owner(i) in inside_ids] if k == "direct_children_with_id" and isinstance(v, list) else walk(v))
+                    for k, v in x.items()}
+        if isinstance(x, list):
+            return [walk(i) for i in x]
+        return x
+    return walk(j)
+
+
 def first_json_diff(a, b, path=""):
     if type(a) != type(b):
         return f"{path}: {type(a).__name__} vs {type(b).__name__}"
@@ -187,6 +212,16 @@ def liveness(system, sys2):
                     objs[jobs[0]].data_transferred = SourceValue(321.5 * u.kB)
                 if nets:
                     objs[nets[0]].bandwidth_energy_intensity = SourceValue(0.077 * u("kWh/GB"))
+            # a list-valued link that was saved empty is a list-valued link after the load too: a job appended to a step
+            # without jobs (of the system) is an edit on both sides
+            sys_ids = {o.id for o in system.all_linked_objects}
+            empty_steps = sorted(oid for oid, o in o1.items() if type(o).__name__ == "UsageJourneyStep" and oid in sys_ids and len(o.jobs) == 0)
+            sys_jobs = sorted(oid for oid in jobs if oid in sys_ids)
+            if empty_steps and sys_jobs:
+                for objs in (o1, o2):
+                    objs[empty_steps[0]].jobs.append(objs[sys_jobs[0]])
+                if [j.id for j in o1[empty_steps[0]].jobs] != [j.id for j in o2[empty_steps[0]].jobs]:
+                    return "edit-after-load: the job appended to a step without jobs is not in the loaded step's list"
     except Exception as e:  # noqa
         return f"edit-after-load-raises:{err_enum(e)}"
     return sysoracles.obs_diff(observe_system(system), observe_system(sys2))
@@ -226,6 +261,11 @@ def shard(args):
                         ops.append("edit job.data_stored")
                 else:
                     spec = specgen.gen_safe_spec(rng, realsys.unit_info, allow_delete=False)
+                    if i % 3 == 1:
+                        # the legal corners made certain: a step without jobs, a repeated step / device, a spare server …
+                        sp2 = specgen.plant_corners(specgen.unshare_jobs(spec), rng)
+                        if specgen.spec_is_safe(sp2, realsys.unit_info):
+                            spec = sp2
                     if rng.random() < 0.7:
                         spec = specgen.with_random_sources(spec, rng)
                     spec0 = copy.deepcopy(spec)
